@@ -98,10 +98,11 @@ m = {
  },
  "engines": [
    {"name": "pbt", "path": "harness/", "serves_properties": sorted(CHECKS), "kind_free_text": "Rust binary: proptest generators + bounded-exhaustive sweeps with reference oracles, 16 worker processes, replay files"},
+   {"name": "libfuzzer", "path": "fuzz/", "serves_properties": ["C01", "C02", "C13"], "kind_free_text": "cargo-fuzz targets fz_stream / fz_line with the semantic oracles inside the target; campaign run by the thorough tiers, corpus replayed in process by the quick tiers"},
  ],
  "checks": checks,
  "not_applicable": na,
- "notes": "All checks rebuild the harness (and the CLI where used) from /repo's working tree via ./check. Exit 2 = build failure or inconclusive run, never a violation.",
+ "notes": "All checks rebuild the harness (and the CLI where used) from /repo's working tree via ./check. Exit 2 = build failure or inconclusive run, never a violation. Known findings: KNOWN_FINDINGS.txt (+ known_findings/C05_gillham.tsv). Sensitivity results: DESIGN.md sections 12 and 13, mutants/, seeded/.",
 }
 json.dump(m, open(os.path.join(ROOT, "MANIFEST.json"), "w"), indent=1)
 print("wrote MANIFEST.json with", len(checks), "checks,", len(na), "not_applicable")
